@@ -199,6 +199,8 @@ def gen_history(rng, profile="mixed", nops=None, nofun=False, attrdict=False, ke
             else:
                 frozen = not frozen
                 ops.append(["freeze"] if frozen else ["unfreeze"])
+            if rng.random() < 0.3 and not any(o[0] == "clone" for o in ops):
+                ops.append(["clone"])          # a clone taken now (possibly inside a frozen window) is kept alive to the end
             continue
         if rng.random() < 0.03 and profile not in ("flat", "assign_flat", "fault"):
             # another function object is put at a function location: every definition calling it is re-evaluated
@@ -277,6 +279,9 @@ def gen_history(rng, profile="mixed", nops=None, nofun=False, attrdict=False, ke
             ops.append([rng.choice(["refresh", "verify", "cleanup"])])
         elif funs:
             ops.append(["unregister", ["$task", rng.choice(["fn", "kn"]) + str(rng.randint(1, funs))]])
+    if any(o[0] == "clone" for o in ops):
+        a, b = rng.sample(leaves, 2)
+        ops.append(["useclone", [[rng.choice(leaves), rng.randint(-9, 9)] for _ in range(2)], [a, b]])
     # ref-identified function / knob tasks registered on a location that an EARLIER operation may have defined: back to names
     seen = set()
     for n, op in enumerate(ops):
@@ -473,10 +478,15 @@ def load_orders_ok(case, obs_list):
     return True
 
 
+OBSERVER_OPS = ("clone", "useclone", "freshcheck", "picklecheck")      # oracle-only operations, not part of the model's history
+
+
 def emit_case(case, obs_list):
     E = Emit()
     ops, xs = [], []
     for op, obs in zip(case["ops"], obs_list):
+        if op[0] in OBSERVER_OPS:
+            continue
         x = E.expect(obs)
         if x is None:
             return None
